@@ -248,9 +248,25 @@ def case_batch(ctx, T, k, C=1):
         ctx.oblige("features_do_not_depend_on_batch_neighbours", core.eq(df1[col].to_numpy()[0], df2[col].to_numpy()[0]), detail={"col": col})
 
 
+def case_single_2d(ctx, T, k, C=1):
+    """one waveform given as a 2-D (time, channel) array: same features as the same waveform in a batch of one"""
+    import ibldsp.waveforms as w
+    vals, arr = _wave(ctx, 1, T, C)
+    _precondition(ctx, vals, 1, T, C)
+    fs, rd = 1000.0, float(k)
+    df3 = _features(ctx, w, arr, fs, rd, repeat=False)
+    flat2 = arrays.mk([vals[0][t][c] for t in range(T) for c in range(C)], shape=(T, C), tag=np.dtype(np.float32))
+    df2 = _features(ctx, w, flat2, fs, rd, repeat=False)
+    ctx.oblige("one_row_for_a_single_2d_waveform", len(df2) == 1, detail={"rows": len(df2)})
+    for col in INDEX_COLS + VALUE_COLS + ["peak_trace_idx"]:
+        ctx.oblige("features_of_a_2d_waveform_equal_those_of_a_batch_of_one", core.eq(df2[col].to_numpy()[0], df3[col].to_numpy()[0]), detail={"col": col})
+
+
 def cases(tier):
     b = bounds(tier)
     cs = []
+    cs.append(Case("single_2d_T5_C1_k2", "case_single_2d", {"T": 5, "k": 2}, timeout_s=3300, max_paths=200000))
+    cs.append(Case("single_2d_T4_C2_k1", "case_single_2d", {"T": 4, "k": 1, "C": 2}, timeout_s=3300, max_paths=200000))
     for (N, T, C) in b["sizes"]:
         for k in b["k"]:
             if k >= T:
@@ -380,6 +396,10 @@ try:
         if d1['peak_trace_idx'][0] != 1 - d2['peak_trace_idx'][0]: bad.append('peak channel not permuted')
         for c_ in idx + val:
             if d1[c_][0] != d2[c_][0]: bad.append(('changed', c_))
+    elif kind.startswith('single_2d'):
+        d2 = f(x[0])
+        for c_ in idx + val + ['peak_trace_idx']:
+            if d1[c_][0] != d2[c_][0]: bad.append(('2-D input differs from a batch of one', c_, d1[c_][0], d2[c_][0]))
     else:
         d2 = f(x[:1])
         for c_ in idx + val + ['peak_trace_idx']:
